@@ -463,7 +463,7 @@ theorem stepOp_rel (cfg : Cfg) {d : Dialect} (hd : DialectRepr d) {s s' : MState
       | nil => exact .err rfl
       | cons hx ht =>
         simp only [List.isEmpty_cons, Bool.false_eq_true, if_false]
-        exact .ok ⟨rfl, ⟨.cons hx ht, h.env, h.valLen, h.envLen, h.ops, h.guards, by simp [h.allocs], h.ctr⟩⟩
+        exact .ok ⟨rfl, ⟨.cons hx ht, h.env, h.valLen, h.envLen, h.ops, h.guards, by simp, h.ctr⟩⟩
 
 /-- outcomes of the whole loop: `none` (out of fuel) on either side is related to anything -/
 def LoopRel : Option (M (Nat × MState)) → Option (M (Nat × MState)) → Prop
@@ -774,5 +774,170 @@ theorem chiaDialect_repr (cfg : Cfg) (extra : String → Option OpFn) (flags0 : 
                     simp only [isSubstrOp, hsn, hl, hn, beq_self_eq_true]
                   simp only [substrGuard, i1, i2, Bool.true_and] at hg1 hg2
                   exact ⟨hg1, hg2⟩
+
+/-! ### a guarded run that answers is a run of the unguarded dialect -/
+
+theorem evalPair_guard (cfg : Cfg) (d : Dialect) (G : Val → Val → Bool) (s : MState) (p env : Val) :
+    evalPair cfg (d.guard G) s p env = evalPair cfg d s p env := by
+  cases p with
+  | atom b t => rfl
+  | pair o l => cases o <;> rfl
+
+theorem guard_applyKw (d : Dialect) (G : Val → Val → Bool) : (d.guard G).applyKw = d.applyKw := rfl
+theorem guard_softforkKw (d : Dialect) (G : Val → Val → Bool) : (d.guard G).softforkKw = d.softforkKw := rfl
+theorem guard_flags (d : Dialect) (G : Val → Val → Bool) : (d.guard G).flags = d.flags := rfl
+theorem guard_allowUnknownOps (d : Dialect) (G : Val → Val → Bool) :
+    (d.guard G).allowUnknownOps = d.allowUnknownOps := rfl
+theorem guard_op (d : Dialect) (G : Val → Val → Bool) (o args : Val) (m : Nat) (ext : OperatorSet) (c : Ctr) :
+    (d.guard G).op o args m ext c = if G o args then none else d.op o args m ext c := rfl
+theorem parseSoftforkArguments_guard (d : Dialect) (G : Val → Val → Bool) (args : Val) :
+    parseSoftforkArguments (d.guard G) args = parseSoftforkArguments d args := rfl
+
+theorem applyOpBody_guard (cfg : Cfg) (d : Dialect) (G : Val → Val → Bool) (s : MState) (o ol : Val)
+    (cc mc : Nat) :
+    applyOpBody cfg (d.guard G) s o ol cc mc = .error .unsupported ∨
+    applyOpBody cfg (d.guard G) s o ol cc mc = applyOpBody cfg d s o ol cc mc := by
+  unfold applyOpBody
+  simp only [evalPair_guard, guard_applyKw, guard_softforkKw, guard_flags, guard_allowUnknownOps, guard_op,
+    parseSoftforkArguments_guard]
+  by_cases h1 : (smallNumber o == some d.applyKw) = true
+  · right; simp only [h1, if_true]; first | done | rfl
+  have h1' : (smallNumber o == some d.applyKw) = false := by simpa using h1
+  by_cases h2 : (smallNumber o == some d.softforkKw) = true
+  · right; simp only [h1', h2, if_true, if_false, Bool.false_eq_true]; first | done | rfl
+  have h2' : (smallNumber o == some d.softforkKw) = false := by simpa using h2
+  by_cases hg : G o ol = true
+  · left; simp only [h1', h2', hg, if_true, if_false, Bool.false_eq_true]
+  · have hg' : G o ol = false := by simpa using hg
+    right; simp only [h1', h2', hg', if_false, Bool.false_eq_true]; first | done | rfl
+
+theorem stepOp_guard (cfg : Cfg) (d : Dialect) (G : Val → Val → Bool) (s : MState) (op : Operation)
+    (cost em : Nat) :
+    stepOp cfg (d.guard G) s op cost em = .error .unsupported ∨
+    stepOp cfg (d.guard G) s op cost em = stepOp cfg d s op cost em := by
+  cases op with
+  | ExitGuard => exact .inr rfl
+  | Cons => exact .inr rfl
+  | RestoreAllocator => exact .inr rfl
+  | SwapEval =>
+    simp only [stepOp, swapEvalOp, evalPair_guard]; exact .inr trivial
+  | Apply =>
+    simp only [stepOp, applyOp_eq, bind, Except.bind]
+    cases s.pop with
+    | error e => exact .inr rfl
+    | ok r1 =>
+      obtain ⟨ol, s1⟩ := r1
+      simp only []
+      cases s1.pop with
+      | error e => exact .inr rfl
+      | ok r2 =>
+        obtain ⟨o, s2⟩ := r2
+        simp only []
+        cases s2.envStack with
+        | nil => exact .inr rfl
+        | cons x envs =>
+          simp only []
+          exact applyOpBody_guard cfg d G _ o ol cost (em - cost)
+
+theorem runLoop_guard (cfg : Cfg) (d : Dialect) (G : Val → Val → Bool) (mc fuel : Nat) :
+    ∀ (s : MState) (cost : Nat) (x : M (Nat × MState)),
+      runLoop cfg (d.guard G) mc fuel s cost = some x → x ≠ .error .unsupported →
+      runLoop cfg d mc fuel s cost = some x := by
+  induction fuel with
+  | zero => intro s cost x h; simp [runLoop_zero] at h
+  | succ n ih =>
+    intro s cost x h hx
+    rw [runLoop_succ] at h ⊢
+    unfold loopBody at h ⊢
+    split at h
+    · rename_i hc; simp only [hc, if_true]; exact h
+    · rename_i hc
+      simp only [hc, if_false]
+      cases hops : s.opStack with
+      | nil => rw [hops] at h; exact h
+      | cons op ops =>
+        rw [hops] at h
+        simp only [] at h ⊢
+        rcases stepOp_guard cfg d G { s with opStack := ops } op cost (effMax mc s) with hu | he
+        · rw [hu] at h; simp only [Option.some.injEq] at h; exact absurd h.symm hx
+        · rw [he] at h
+          cases hst : stepOp cfg d { s with opStack := ops } op cost (effMax mc s) with
+          | error e => rw [hst] at h; exact h
+          | ok r =>
+            obtain ⟨c, s1⟩ := r
+            rw [hst] at h
+            simp only [] at h ⊢
+            exact ih s1 (cost + c) x h hx
+
+theorem runProgram_guard (cfg : Cfg) (d : Dialect) (G : Val → Val → Bool) (fuel : Nat) (c0 : Ctr)
+    (program env : Val) (maxCost : Nat) (r : OpRes)
+    (h : runProgram cfg (d.guard G) fuel c0 program env maxCost = some r) :
+    runProgram cfg d fuel c0 program env maxCost = some r := by
+  unfold runProgram at h ⊢
+  simp only [evalPair_guard] at h ⊢
+  cases hg : c0.addGhostAtom 1 with
+  | error e => rw [hg] at h; exact h
+  | ok c =>
+    rw [hg] at h
+    simp only [] at h ⊢
+    cases hev : evalPair cfg d { ctr := c } program env with
+    | error e =>
+      rw [hev] at h
+      cases e with
+      | err e0 => exact h
+      | unsupported => cases h
+    | ok a =>
+      obtain ⟨k, s⟩ := a
+      rw [hev] at h
+      simp only [] at h ⊢
+      cases hl : runLoop cfg (d.guard G) (if maxCost == 0 then U64_MAX else maxCost) fuel s k with
+      | none => rw [hl] at h; cases h
+      | some x =>
+        have hx : x ≠ .error .unsupported := by
+          intro hx; subst hx; rw [hl] at h; cases h
+        rw [runLoop_guard cfg d G _ fuel s k x hl hx]
+        rw [hl] at h
+        exact h
+
+/-- **C03 for `ChiaDialect`, whole runs** (`eval_retag` instantiated; `ENABLE_GC` off).
+If neither run applies `op_substr` to an inline source atom with a non-canonical result (the guarded
+runs both answer), then the two runs of the real dialect give those answers and they agree up to
+representation tags: same cost, erase-equal values, equal atom/pair counts *and* heap size, or the
+same kind of error.  `OpWf` of the operators is a hypothesis (`coreOps_wf`, `opUnknown_wf` in
+`Clean.lean`). -/
+theorem eval_retag_chia_partial (cfg : Cfg) (extra : String → Option OpFn) (flags0 : Flags)
+    (hcore : ∀ name f, coreOpByName cfg name = some f → OpWf f)
+    (hunk : ∀ op, OpWf (opUnknown op))
+    (hextra : ∀ name f, extra name = some f → OpRepr true f ∧ OpWf f)
+    (hgc : hasFlag (chiaDialect cfg extra flags0).flags Gen.FLAG_ENABLE_GC = false)
+    (fuel : Nat) (c0 : Ctr) (program program' env env' : Val)
+    (hpw : program.wf = true) (hpw' : program'.wf = true) (hpe : program.erase = program'.erase)
+    (hew : env.wf = true) (hew' : env'.wf = true) (hee : env.erase = env'.erase)
+    (maxCost : Nat) (r r' : OpRes)
+    (hr : runProgram cfg ((chiaDialect cfg extra flags0).guard substrGuard) fuel c0 program env maxCost = some r)
+    (hr' : runProgram cfg ((chiaDialect cfg extra flags0).guard substrGuard) fuel c0 program' env' maxCost = some r') :
+    runProgram cfg (chiaDialect cfg extra flags0) fuel c0 program env maxCost = some r ∧
+    runProgram cfg (chiaDialect cfg extra flags0) fuel c0 program' env' maxCost = some r' ∧
+    ResEraseEq true r r' :=
+  ⟨runProgram_guard _ _ _ _ _ _ _ _ _ hr, runProgram_guard _ _ _ _ _ _ _ _ _ hr',
+    eval_retag cfg (chiaDialect_repr cfg extra flags0 hcore hunk hextra hgc) fuel c0
+      ⟨hpw, hpw', hpe⟩ ⟨hew, hew', hee⟩ maxCost hr hr'⟩
+
+/-- the full machine-level statement: no guard, any flags, heap size not compared.  Not proved:
+(1) inside the defect region the heap sizes differ (`opSubstr_repr_witness`), and a later
+`OutOfMemory` check can then separate the two runs, so the statement needs "no allocator limit is
+hit" and a per-operator heap-shift lemma; (2) with `ENABLE_GC` a heap operator atom is not a
+`gc_candidate`, so the operation stacks differ by `RestoreAllocator` entries (stuttering). -/
+def EvalRetagStatement : Prop :=
+  ∀ (cfg : Cfg) (extra : String → Option OpFn) (flags0 : Flags),
+    (∀ name f, extra name = some f → OpRepr true f ∧ OpWf f) →
+    ∀ (fuel : Nat) (c0 : Ctr) (program program' env env' : Val),
+      program.wf = true → program'.wf = true → program.erase = program'.erase →
+      env.wf = true → env'.wf = true → env.erase = env'.erase →
+      ∀ (maxCost : Nat) (r r' : OpRes),
+        runProgram cfg (chiaDialect cfg extra flags0) fuel c0 program env maxCost = some r →
+        runProgram cfg (chiaDialect cfg extra flags0) fuel c0 program' env' maxCost = some r' →
+        (∀ e, r ≠ .error e ∨ e ≠ .OutOfMemory) → (∀ e, r' ≠ .error e ∨ e ≠ .OutOfMemory) →
+        ResEraseEq false r r'
 
 end Clvm.Interp
